@@ -297,4 +297,5 @@ Section StepSim.
     - apply (step_rel_Relative inp base ov p e b a br pw HU).
     - apply (step_rel_RelativeSlash inp base ov p e b a br pw HU).
   Qed.
+
 End StepSim.
